@@ -36,6 +36,16 @@ Accepted shapes (anything else raises Unsupported -> the tie is reported broken,
       numerical construction of the cache (statements without self-calls that end by storing the cache attribute) is ONE event.
       Whitelisted and not emitted: `self._matA / _vecB = np.copy(qt.calc_matA() / calc_vecB())`, `self._on_func_* = True`,
       `self._update_on_*_true()`, `<name> = [t[1] for t in data]`.  Anything else fails.
+  slicing of the stacked forward model (-> gen_pd_pieces, gen_grad_pieces, gen_hess_sizes, gen_helper_rows, gen_helper_grad_row,
+      gen_hess_len; Model/C12_Slices.v): ProbabilityBasedLossFunction.set_func_{prob_dists,gradient_prob_dists,hessian_prob_dists}
+      _from_standard_qt must be: whitelisted preamble (np.copy of calc_matA / calc_vecB, self._num_var = qt.num_variables,
+      num_func = qt.num_schedules, <list> = [], start = <int>), ONE loop `for index in range(num_func)` whose body is
+      `stop = <e>` ; `func = self.<helper>(matA[<e>:<e>], [vecB[same slice],] <e>, <e>)` ; `<list>.append(func)` ; `start = <e>`
+      (Hessian: `func = self.<helper>(<e>, index)` ; append), then `self.set_func_*(<list>)`; <e>: + - * over start, stop,
+      qt.num_outcomes(index), int constants.  The helpers _generate_func_prob_dist / _generate_func_gradient_prob_dist /
+      _generate_func_hessian_prob_dist must return a closure reading `matA[<e>:<e>] @ var + vecB[same slice]`, resp.
+      `[matA[<e>, alpha] for prob_dist_index in range(size_prob_dist)]`, resp. `np.array([0.0] * <e>, ...)`; <e> over
+      size_prob_dist, index, prob_dist_index.
   replace_prob_dist(prob_dist, eps=None): `eps = eps if eps is not None else <float const>` (the default is a model
       parameter, reported as gen_replace_default_eps_num / _den); `S = prob_dist.shape[0]`;
       `C = np.count_nonzero(prob_dist < eps)`; `R = np.zeros(S)`; `for index, prob in enumerate(prob_dist): if prob < eps:
@@ -533,6 +543,156 @@ def tr_bodies(cls, coq_name, calc, setter):
                tr_skeleton(cls, "set_func_gradient_prob_dists_from_standard_qt")))
 
 
+# ------------------------------------------------------------------ slicing of the stacked forward model
+def nat_expr(e, env):
+    if isinstance(e, ast.Constant) and type(e.value) is int and 0 <= e.value <= 1000:
+        return "%d" % e.value
+    if isinstance(e, ast.Name) and e.id in env:
+        return env[e.id]
+    if (isinstance(e, ast.Call) and isinstance(e.func, ast.Attribute) and e.func.attr == "num_outcomes" and isinstance(e.func.value, ast.Name)
+            and e.func.value.id == "qt" and len(e.args) == 1 and isinstance(e.args[0], ast.Name) and e.args[0].id == "index" and "__n" in env):
+        return env["__n"]
+    if isinstance(e, ast.BinOp) and isinstance(e.op, (ast.Add, ast.Sub, ast.Mult)):
+        return "(%s %s %s)" % (nat_expr(e.left, env), {ast.Add: "+", ast.Sub: "-", ast.Mult: "*"}[type(e.op)], nat_expr(e.right, env))
+    fail(e, "unsupported index expression")
+
+
+def slice_bounds(sub, arr, env):
+    if not (isinstance(sub, ast.Subscript) and isinstance(sub.value, ast.Name) and sub.value.id == arr and isinstance(sub.slice, ast.Slice)
+            and sub.slice.step is None and sub.slice.lower is not None and sub.slice.upper is not None):
+        fail(sub, "expected %s[<lo>:<hi>]" % arr)
+    return nat_expr(sub.slice.lower, env), nat_expr(sub.slice.upper, env)
+
+
+def is_pre_ok(st):
+    if isinstance(st, ast.Assign) and len(st.targets) == 1:
+        t, v = st.targets[0], st.value
+        if isinstance(t, ast.Name) and t.id in ("matA", "vecB") and isinstance(v, ast.Call) and isinstance(v.func, ast.Attribute) and v.func.attr == "copy":
+            return True
+        if self_attr(t) == "_num_var" and isinstance(v, ast.Attribute) and v.attr == "num_variables":
+            return True
+        if isinstance(t, ast.Name) and t.id == "num_func" and isinstance(v, ast.Attribute) and v.attr == "num_schedules":
+            return True
+        if isinstance(t, ast.Name) and isinstance(v, ast.List) and not v.elts:
+            return True
+    return False
+
+
+def tr_slicer(cls, meth, helper, kind, coq_name):
+    f = find_def(cls, meth)
+    st = body_wo_doc(f)
+    loops = [x for x in st if isinstance(x, ast.For)]
+    if len(loops) != 1:
+        fail(f, "expected exactly one loop")
+    li = st.index(loops[0]); loop = loops[0]
+    init = None
+    for x in st[:li]:
+        if isinstance(x, ast.Assign) and len(x.targets) == 1 and isinstance(x.targets[0], ast.Name) and x.targets[0].id == "start":
+            init = nat_expr(x.value, {})
+        elif not is_pre_ok(x):
+            fail(x, "unsupported statement before the loop")
+    post = st[li + 1:]
+    if not (len(post) == 1 and isinstance(post[0], ast.Expr) and isinstance(post[0].value, ast.Call) and self_attr(post[0].value.func) is not None
+            and len(post[0].value.args) == 1 and isinstance(post[0].value.args[0], ast.Name)):
+        fail(f, "expected a single self.set_func_*(<list>) after the loop")
+    acc = post[0].value.args[0].id
+    if not (isinstance(loop.target, ast.Name) and loop.target.id == "index" and isinstance(loop.iter, ast.Call) and isinstance(loop.iter.func, ast.Name)
+            and loop.iter.func.id == "range" and len(loop.iter.args) == 1 and isinstance(loop.iter.args[0], ast.Name) and loop.iter.args[0].id == "num_func"
+            and not loop.orelse):
+        fail(loop, "expected `for index in range(num_func)`")
+    b = loop.body
+
+    def is_append(x):
+        return (isinstance(x, ast.Expr) and isinstance(x.value, ast.Call) and isinstance(x.value.func, ast.Attribute) and x.value.func.attr == "append"
+                and isinstance(x.value.func.value, ast.Name) and x.value.func.value.id == acc and len(x.value.args) == 1
+                and isinstance(x.value.args[0], ast.Name) and x.value.args[0].id == "func")
+
+    def helper_call(x, nargs):
+        ok = (isinstance(x, ast.Assign) and len(x.targets) == 1 and isinstance(x.targets[0], ast.Name) and x.targets[0].id == "func"
+              and isinstance(x.value, ast.Call) and self_attr(x.value.func) == helper and len(x.value.args) == nargs and not x.value.keywords)
+        if not ok:
+            fail(x, "expected func = self.%s(<%d arguments>)" % (helper, nargs))
+        return x.value.args
+    if kind == "hess":
+        if init is not None or len(b) != 2 or not is_append(b[1]):
+            fail(loop, "unexpected loop body (Hessian)")
+        a = helper_call(b[0], 2)
+        if not (isinstance(a[1], ast.Name) and a[1].id == "index"):
+            fail(a[1], "second argument must be index")
+        return "Definition %s (sizes : list nat) : list nat := map (fun n : nat => %s) sizes.\n" % (coq_name, nat_expr(a[0], {"__n": "n"}))
+    if init is None or len(b) != 4 or not is_append(b[2]):
+        fail(loop, "unexpected loop body")
+    if not (isinstance(b[0], ast.Assign) and isinstance(b[0].targets[0], ast.Name) and b[0].targets[0].id == "stop"):
+        fail(b[0], "expected stop = <e>")
+    stop = nat_expr(b[0].value, {"start": "start", "__n": "n"})
+    env = {"start": "start", "stop": "stop", "__n": "n"}
+    a = helper_call(b[1], 4 if kind == "pd" else 3)
+    lo, hi = slice_bounds(a[0], "matA", env)
+    if kind == "pd":
+        if slice_bounds(a[1], "vecB", env) != (lo, hi):
+            fail(a[1], "vecB must be sliced like matA")
+        sz, ix = nat_expr(a[2], env), nat_expr(a[3], env)
+    else:
+        sz, ix = nat_expr(a[1], env), nat_expr(a[2], env)
+    if not (isinstance(b[3], ast.Assign) and isinstance(b[3].targets[0], ast.Name) and b[3].targets[0].id == "start"):
+        fail(b[3], "expected start = <e>")
+    nxt = nat_expr(b[3].value, env)
+    return ("Fixpoint %s_from (start : nat) (sizes : list nat) : list (nat * nat * nat * nat) :=\n  match sizes with\n  | [] => []\n"
+            "  | n :: t => let stop := %s in (%s, %s, %s, %s) :: %s_from %s t\n  end.\n"
+            "Definition %s (sizes : list nat) := %s_from %s sizes.\n" % (coq_name, stop, lo, hi, sz, ix, coq_name, nxt, coq_name, coq_name, init))
+
+
+def tr_helpers(cls):
+    env = {"size_prob_dist": "size_prob_dist", "index": "index", "prob_dist_index": "prob_dist_index"}
+
+    def inner(name, params):
+        f = find_def(cls, name)
+        if argnames(f) != ["self"] + params:
+            fail(f, "unexpected parameters %s" % argnames(f))
+        b = body_wo_doc(f)
+        if not (len(b) == 2 and isinstance(b[0], ast.FunctionDef) and isinstance(b[1], ast.Return) and isinstance(b[1].value, ast.Name) and b[1].value.id == b[0].name):
+            fail(f, "expected a closure definition and its return")
+        return b[0]
+    # prob dist
+    p = inner("_generate_func_prob_dist", ["matA", "vecB", "size_prob_dist", "index"])
+    pb = body_wo_doc(p)
+    ok = (len(pb) == 1 and isinstance(pb[0], ast.Return) and isinstance(pb[0].value, ast.BinOp) and isinstance(pb[0].value.op, ast.Add)
+          and isinstance(pb[0].value.left, ast.BinOp) and isinstance(pb[0].value.left.op, ast.MatMult)
+          and isinstance(pb[0].value.left.right, ast.Name) and pb[0].value.left.right.id == "var")
+    if not ok:
+        fail(p, "expected `return matA[lo:hi] @ var + vecB[lo:hi]`")
+    lo, hi = slice_bounds(pb[0].value.left.left, "matA", env)
+    if slice_bounds(pb[0].value.right, "vecB", env) != (lo, hi):
+        fail(p, "vecB must be sliced like matA")
+    out = "Definition gen_helper_rows (size_prob_dist index : nat) : nat * nat := (%s, %s).\n" % (lo, hi)
+    # gradient
+    g = inner("_generate_func_gradient_prob_dist", ["matA", "size_prob_dist", "index"])
+    gb = body_wo_doc(g)
+    ok = (len(gb) == 2 and isinstance(gb[0], ast.Assign) and isinstance(gb[0].value, ast.ListComp) and len(gb[0].value.generators) == 1
+          and isinstance(gb[0].value.generators[0].target, ast.Name) and gb[0].value.generators[0].target.id == "prob_dist_index"
+          and not gb[0].value.generators[0].ifs and isinstance(gb[0].value.generators[0].iter, ast.Call)
+          and isinstance(gb[0].value.generators[0].iter.func, ast.Name) and gb[0].value.generators[0].iter.func.id == "range"
+          and len(gb[0].value.generators[0].iter.args) == 1 and isinstance(gb[0].value.generators[0].iter.args[0], ast.Name)
+          and gb[0].value.generators[0].iter.args[0].id == "size_prob_dist" and isinstance(gb[1], ast.Return))
+    elt = gb[0].value.elt if ok else None
+    ok = ok and (isinstance(elt, ast.Subscript) and isinstance(elt.value, ast.Name) and elt.value.id == "matA" and isinstance(elt.slice, ast.Tuple)
+                 and len(elt.slice.elts) == 2 and isinstance(elt.slice.elts[1], ast.Name) and elt.slice.elts[1].id == "alpha")
+    if not ok:
+        fail(g, "expected `[matA[<row>, alpha] for prob_dist_index in range(size_prob_dist)]`")
+    out += "Definition gen_helper_grad_row (size_prob_dist index prob_dist_index : nat) : nat := %s.\n" % nat_expr(elt.slice.elts[0], env)
+    # hessian
+    h = inner("_generate_func_hessian_prob_dist", ["size_prob_dist", "index"])
+    hb = body_wo_doc(h)
+    ok = (len(hb) == 1 and isinstance(hb[0], ast.Return) and isinstance(hb[0].value, ast.Call) and len(hb[0].value.args) == 1
+          and isinstance(hb[0].value.args[0], ast.BinOp) and isinstance(hb[0].value.args[0].op, ast.Mult)
+          and isinstance(hb[0].value.args[0].left, ast.List) and len(hb[0].value.args[0].left.elts) == 1
+          and isinstance(hb[0].value.args[0].left.elts[0], ast.Constant) and hb[0].value.args[0].left.elts[0].value == 0.0)
+    if not ok:
+        fail(h, "expected `return np.array([0.0] * <e>, ...)`")
+    out += "Definition gen_hess_len (size_prob_dist index : nat) : nat := %s.\n" % nat_expr(hb[0].value.args[0].right, env)
+    return out
+
+
 def main(repo, out):
     def parse(rel):
         return ast.parse(open(os.path.join(repo, rel), encoding="utf-8").read())
@@ -541,7 +701,7 @@ def main(repo, out):
     mu = parse("quara/utils/matrix_util.py")
     pl = Placement(); pl_re = Placement()
     parts = ["(* GENERATED by gen/c12_py2coq.py from the current quara source - do not edit *)",
-             "From Coq Require Import String List Bool ZArith.",
+             "From Coq Require Import String List Bool ZArith Arith.",
              "From QV.Core Require Import OF Sums Mat.",
              "From QV.Model Require Import C12_Loss C12_Dispatch C12_Skeleton.",
              "Import ListNotations.", "Open Scope string_scope.", ""]
@@ -563,6 +723,11 @@ def main(repo, out):
                            "_calc_extend_weight_matrix", "set_weight_matrices"))
     parts.append(tr_bodies(find_class(fre, "StandardQTomographyBasedWeightedRelativeEntropy"), "gen_re_bodies",
                            "_calc_extend_weights", "set_weights"))
+    pcls = find_class(pb, "ProbabilityBasedLossFunction")
+    parts.append(tr_slicer(pcls, "set_func_prob_dists_from_standard_qt", "_generate_func_prob_dist", "pd", "gen_pd_pieces"))
+    parts.append(tr_slicer(pcls, "set_func_gradient_prob_dists_from_standard_qt", "_generate_func_gradient_prob_dist", "grad", "gen_grad_pieces"))
+    parts.append(tr_slicer(pcls, "set_func_hessian_prob_dists_from_standard_qt", "_generate_func_hessian_prob_dist", "hess", "gen_hess_sizes"))
+    parts.append(tr_helpers(pcls))
     # the fast classes must not override the configuration entry point or the dispatcher
     for cls_ in (find_class(fse, "StandardQTomographyBasedWeightedProbabilityBasedSquaredError"), find_class(fre, "StandardQTomographyBasedWeightedRelativeEntropy")):
         for n in cls_.body:
